@@ -156,7 +156,7 @@ def run(tier):
                        "InferenceSet; non-trivial = at least one structured (property/function) tag; systems are distinct sequences. "
                        "programs: every member of the PosShape / FnPos / Arity families and seeded random composite programs (gen.py; 500 quick / 6000 thorough, 2% ill-sorted "
                        "sub-expressions) - the real verdict must equal that of Kinds.tla (families enumerated in TLC's Init; composites in oracle mode) and must not change "
-                       "under permutations of declarations and consistent renaming; see notes.programs, notes.composite_programs")
+                       "under permutations of declarations and consistent renaming; see program_families, composite_programs")
     chk.cov["exhaustive"] = True
     chk.assumptions = [
         "bounded: tag universes and equation counts of spec/mc/Unify_*.cfg; recursion budget Fuel=12 stands for the Rust stack",
